@@ -114,7 +114,7 @@ class OrderedSet:
         return self.update(s)
 
     def __ror__(self, s):
-        return self.union(s)
+        return OrderedSet(s).union(self)
 
     def __and__(self, s):
         return self.intersection(s)
@@ -123,7 +123,7 @@ class OrderedSet:
         return self.intersection_update(s)
 
     def __rand__(self, s):
-        return self.intersection(s)
+        return OrderedSet(s).intersection(self)
 
     def __sub__(self, s):
         return self.difference(s)
